@@ -75,12 +75,20 @@ type Fact func(cond ssa.Value) (onTrue, onFalse bool)
 //	p = phi[true, ..., B]   (a || b):  p false ⇒ every operand false  → the fact holds on the false edge if it holds on the false edge of any operand
 func withNot(f Fact) Fact {
 	var g Fact
+	depth := 0
 	g = func(cond ssa.Value) (bool, bool) {
+		// loop-carried flags (`for grew := true; grew; {…}`) form cycles of boolean phis: they are not short-circuit
+		// conditions; bound the recursion and leave phis of loop headers to the fact itself
+		depth++
+		defer func() { depth-- }()
+		if depth > 12 {
+			return false, false
+		}
 		if u, ok := cond.(*ssa.UnOp); ok && u.Op == token.NOT {
 			t, fl := g(u.X)
 			return fl, t
 		}
-		if phi, ok := cond.(*ssa.Phi); ok && len(phi.Edges) >= 2 {
+		if phi, ok := cond.(*ssa.Phi); ok && len(phi.Edges) >= 2 && !isLoopHeader(phi.Block()) {
 			if t, fl := f(cond); t || fl {
 				return t, fl
 			}
@@ -394,4 +402,14 @@ func (c *Ctx) ReachSet(targets FnSet, noGo bool) FnSet {
 		}
 	}
 	return set
+}
+
+// isLoopHeader: b dominates one of its predecessors.
+func isLoopHeader(b *ssa.BasicBlock) bool {
+	for _, p := range b.Preds {
+		if b.Dominates(p) {
+			return true
+		}
+	}
+	return false
 }
